@@ -155,7 +155,7 @@ def facts():
                             def to_string(self, v):
                                 return v
                         for n in sorted(set(x for x in (lim - 1, lim, lim + 1, lim + 2) if x >= 0)):
-                            for text in set(["9" * n, ("-" + "9" * (n - 1)) if n >= 1 else "", ("A" * n)]):
+                            for text in set(["9" * n, ("-" + "9" * (n - 1)) if n >= 1 else "", ("A" * n), ("A  " * n)[:n]]):
                                 if len(text) != n:
                                     continue
                                 try:
